@@ -28,7 +28,7 @@ RULE = (
     "command run on one tampered world, distinct by (scenario hash, victim, edit, command)."
 )
 ASSUMPTIONS = ["one tamper at a time (plus a drawn share of double tampers); chain file content edits are outside the statement"]
-BUDGET = {"quick": (100, 4), "thorough": (2400, 16)}
+BUDGET = {"quick": (100, 4), "thorough": (7200, 16)}
 REQUIRED = ["older_generation", "nested_victim", "bitflip", "removed", "chain_removed", "flatten", "info_sf_noroot"]
 
 P1 = {
